@@ -19,7 +19,7 @@
    every run.  A class whose __eq__ compares a subset of what repr prints fails [wf_spec]; for such a
    spec the generated file proves [refuted_statement] (a counter-model) and [partial_statement]. *)
 
-From Coq Require Import List Bool Arith Lia.
+From Coq Require Import List Bool Arith Lia Sorted.
 Import ListNotations.
 
 Inductive owner := Self | Other.
@@ -416,3 +416,98 @@ Section RoundTrip.
 End RoundTrip.
 
 Print Assumptions C13_roundtrip_newargs.
+
+(* ------------------------------------------------------------------------------------------- *)
+(* repr as a constructor call: what repr prints are the attributes it reads *)
+Definition rep_fields (s : spec) : list nat :=
+  flat_map (fun t => match t with TF f _ => [f] | TSelfId => [] end) (rep s).
+
+(* Rendering kind 7: a dict printed with its keys in sorted order IS a function of the ==-class of the
+   dict.  (Python: {k: d[k] for k in sorted(d)}; model: insertion sort by key of the item list.) *)
+Section DictCanonical.
+  Fixpoint dins (kv : nat * nat) (l : pdict) : pdict :=
+    match l with
+    | [] => [kv]
+    | x :: t => if fst kv <=? fst x then kv :: l else x :: dins kv t
+    end.
+  Fixpoint dsort (d : pdict) : pdict := match d with [] => [] | x :: t => dins x (dsort t) end.
+  Definition dict_repr_canonical (d : pdict) : list (nat * nat) := dsort d.
+
+  Definition klt (a b : nat * nat) : Prop := fst a < fst b.
+
+  Lemma dins_in kv l x : In x (dins kv l) <-> x = kv \/ In x l.
+  Proof.
+    induction l as [|y t IH]; simpl.
+    - intuition.
+    - destruct (fst kv <=? fst y); simpl; [intuition|]. rewrite IH. intuition.
+  Qed.
+
+  Lemma dsort_in d x : In x (dsort d) <-> In x d.
+  Proof. induction d as [|y t IH]; simpl; [tauto|]. rewrite dins_in, IH. intuition. Qed.
+
+  Lemma dins_sorted kv l : StronglySorted klt l -> ~ In (fst kv) (map fst l) -> StronglySorted klt (dins kv l).
+  Proof.
+    induction 1 as [|y t S IH F]; simpl; intro N.
+    - constructor; constructor.
+    - destruct (fst kv <=? fst y) eqn:E.
+      + apply Nat.leb_le in E. assert (L : fst kv < fst y) by (destruct (Nat.eq_dec (fst kv) (fst y)); [exfalso; apply N; left; auto|lia]).
+        constructor; [constructor; auto|]. constructor; auto.
+        rewrite Forall_forall in *. intros z I. specialize (F z I). unfold klt in *. lia.
+      + apply Nat.leb_gt in E. constructor; [apply IH; intro I; apply N; right; exact I|].
+        rewrite Forall_forall in *. intros z I. apply dins_in in I as [->|I]; [exact E | auto].
+  Qed.
+
+  Lemma dsort_sorted d : NoDup (map fst d) -> StronglySorted klt (dsort d).
+  Proof.
+    induction d as [|y t IH]; simpl; intro N; [constructor|]. inversion N as [|? ? Ny Nt]; subst.
+    apply dins_sorted.
+    - apply IH; exact Nt.
+    - intro I. apply Ny. apply in_map_iff in I as (z & E & I).
+      apply (proj1 (dsort_in _ _)) in I. apply in_map_iff. exists z. split; [exact E | exact I].
+  Qed.
+
+  Lemma sorted_unique : forall l1 l2, StronglySorted klt l1 -> StronglySorted klt l2 ->
+    (forall x, In x l1 <-> In x l2) -> l1 = l2.
+  Proof.
+    induction l1 as [|a t1 IH]; intros [|b t2] S1 S2 E.
+    - reflexivity.
+    - exfalso. apply (proj2 (E b)). left; auto.
+    - exfalso. apply (proj1 (E a)). left; auto.
+    - inversion S1 as [|? ? S1' F1]; inversion S2 as [|? ? S2' F2]; subst.
+      rewrite Forall_forall in F1, F2.
+      assert (a = b).
+      { destruct (proj1 (E a) (or_introl eq_refl)) as [->|Ia]; auto.
+        destruct (proj2 (E b) (or_introl eq_refl)) as [->|Ib]; auto.
+        specialize (F1 b Ib). specialize (F2 a Ia). unfold klt in *. lia. }
+      subst b. f_equal. apply IH; auto. intro x. split; intro I.
+      + destruct (proj1 (E x) (or_intror I)) as [->|]; auto. specialize (F1 x I). unfold klt in F1. lia.
+      + destruct (proj2 (E x) (or_intror I)) as [->|]; auto. specialize (F2 x I). unfold klt in F2. lia.
+  Qed.
+
+  Lemma dget_in e k v : dget e k = Some v -> In (k, v) e.
+  Proof.
+    unfold dget. destruct (find _ e) as [[k' v']|] eqn:F; simpl; [|discriminate]. intro E. inversion E; subst.
+    apply find_some in F as [I K]. simpl in K. apply Nat.eqb_eq in K. subst. exact I.
+  Qed.
+
+  Lemma dsub_in d e : dsub d e = true -> forall x, In x d -> In x e.
+  Proof.
+    unfold dsub. rewrite forallb_forall. intros F [k v] I. specialize (F _ I). simpl in F.
+    destruct (dget e k) as [w|] eqn:G; [|discriminate]. apply Nat.eqb_eq in F. subst. apply dget_in; auto.
+  Qed.
+
+  (* equal dicts (Python ==) have the same canonical repr, whatever their insertion orders *)
+  Theorem C13_dict_canonical_repr : forall d e, NoDup (map fst d) -> NoDup (map fst e) ->
+    dict_eqb d e = true -> dict_repr_canonical d = dict_repr_canonical e.
+  Proof.
+    intros d e Nd Ne E. unfold dict_eqb in E. apply andb_prop in E as [E E2]. apply andb_prop in E as [_ E1].
+    apply sorted_unique; try (apply dsort_sorted; auto).
+    intro x. rewrite !dsort_in. split; eapply dsub_in; eauto.
+  Qed.
+
+  (* and the canonical repr still denotes an equal dict (eval(repr) round trip) *)
+  Theorem C13_dict_canonical_same_items : forall d x, In x (dict_repr_canonical d) <-> In x d.
+  Proof. intros; apply dsort_in. Qed.
+End DictCanonical.
+
+Print Assumptions C13_dict_canonical_repr.
